@@ -161,17 +161,24 @@ Definition text_canvas (t : mtext) (s : list Z) : img :=
 Definition col_lit (W : Z) (d : list Z) (rlo rhi c : Z) : bool :=
   existsb (fun r => px (wib_of W) d c (rlo + Z.of_nat r)) (seq 0 (Z.to_nat (rhi - rlo))).
 
-Definition profile_matches (W : Z) (d : list Z) (rlo rhi : Z) (ti : img) (x0 : Z) : bool :=
+(* [alo, ahi): the columns of the active area.  Ink may overhang the measured width by one size step
+   (the last glyph's spacing column, cf. centred_cols); where that overhang meets the edge of the active
+   area it MUST be cut ("no pixel outside the active area"), so the comparison is made inside the area:
+   e.g. "Gr\252n\176" at size 2 measures 58 in an area of 60, its ink is 60 wide, starts at column 3 and
+   loses its last column to the border.  (Found by the thorough tier on the unchanged tree: the clause as
+   first written demanded the full profile - a false alarm of this check, see DESIGN 10.5.) *)
+Definition profile_matches (W : Z) (d : list Z) (rlo rhi : Z) (ti : img) (alo ahi x0 : Z) : bool :=
   let tw := gW (ig ti) in
   forallb (fun cn => let c := Z.of_nat cn in
              Bool.eqb (col_lit W d rlo rhi c)
-                      ((x0 <=? c) && (c - x0 <? tw) && col_lit tw (idata ti) 0 (gH (ig ti)) (c - x0)))
+                      ((x0 <=? c) && (c - x0 <? tw) && (alo <=? c) && (c <? ahi) && col_lit tw (idata ti) 0 (gH (ig ti)) (c - x0)))
           (seq 0 (Z.to_nat (8 * wib_of W))).
 
 Definition line_ink_ok (t : mtext) (W border aw : Z) (d : list Z) (rlo rhi : Z) (s : list Z) : bool :=
   let ti := text_canvas t s in
   let sw := line_width t s in
-  profile_matches W d rlo rhi ti (border + (aw - sw) / 2) || profile_matches W d rlo rhi ti (border + (aw - sw + 1) / 2).
+  profile_matches W d rlo rhi ti border (border + aw) (border + (aw - sw) / 2)
+  || profile_matches W d rlo rhi ti border (border + aw) (border + (aw - sw + 1) / 2).
 
 Definition oneline_ink_ok (t : mtext) (W H shrink border : Z) (d : list Z) : bool :=
   let aw := active_w W shrink border in
